@@ -36,7 +36,8 @@ func c04Leaves(full bool) []*qt.Node {
 			qt.Cmp("n", "<", qt.Float("0.5")), qt.Cmp("s", ">", qt.Phrase("m m")), qt.Cmp("n", "<=", qt.Int(-4)),
 			qt.Range("n", qt.Int(1), qt.Int(5), false), qt.Range("n", qt.Open(), qt.Int(5), true), qt.Range("n", qt.Int(2), qt.Open(), false),
 			qt.Range("n", qt.Float("1.5"), qt.Float("2.5"), true), qt.Range("n", qt.Float("0.001"), qt.Open(), true), qt.Range("n", qt.Open(), qt.Float("2.25"), false),
-			qt.Range("n", qt.Int(1), qt.Float("2.5"), true), qt.Range("s", qt.Word("aa"), qt.Word("zz"), true), qt.Range("s", qt.Phrase("x,y"), qt.Phrase("z z"), false),
+			qt.Range("n", qt.Int(1), qt.Float("2.5"), true), qt.Range("n", qt.Int(1), qt.Float("2.5"), false), qt.Range("n", qt.Float("0.5"), qt.Int(3), false), qt.Range("n", qt.Float("0.5"), qt.Int(3), true),
+			qt.F("f", qt.IntText("010")), qt.Range("n", qt.IntText("010"), qt.IntText("020"), false), qt.Range("s", qt.Word("aa"), qt.Word("zz"), true), qt.Range("s", qt.Phrase("x,y"), qt.Phrase("z z"), false),
 			qt.Range("s", qt.Open(), qt.Word("mm"), true), qt.Range("n", qt.Open(), qt.Open(), true),
 			qt.List("n", qt.Int(1), qt.Float("2.5"), qt.Phrase("z z")), qt.List("s", qt.Phrase("a,b"), qt.Phrase("it's")),
 			qt.F("f", qt.Wild(`b\*c*`)), qt.F("f", qt.Wild(`b\?c?`)), qt.F("f", qt.Wild(`\**`)), qt.F("f", qt.Wild(`a\ b*`)), qt.T(qt.Wild(`b\*c*`)),
